@@ -226,6 +226,12 @@ def run(ctx):
                                             with_overloads=True, with_class=False), ctx.seed + 500, nlib):
         excluded += sanitize(lib)
         jobs.append((len(jobs), lib, "python", None, False))
+    # class-focused family (static methods with arguments, constructors, methods)
+    for lib in smallgen.sample(xlib.library(lang="c++", nfunc=(0, 1), for_fortran=True, rows=pyfront.PY_ROWS,
+                                            results=pyfront.PY_RESULTS, types=pyfront.PY_TYPES, ovl_sigs=pyfront.PY_OVL_SIGS,
+                                            with_overloads=False, with_class=True), ctx.seed + 700, nlib // 2):
+        excluded += sanitize(lib)
+        jobs.append((len(jobs), lib, "python", None, False))
     ctx.exclude_known("probe:reference-result-with-cleanup-label", excluded)
     for out in core.pool_map(_gen_job, jobs):
         ctx.case(n=out["ncalls"], label=out["labels"])
